@@ -20,13 +20,14 @@ P_MAX_US = 10**12
 def install():
     C.stub(M, "int", S.sym_int)
     C.stub(FL, "timedelta", S.sym_timedelta)
+    C.shadow_module(FL)
 
 
 def h_flood(x, n, ordered, ntags=3, twin=False):
     T, D, L, evs = [], [], [], []
     for i in range(n):
         k = x.zint("k%d" % i, 0, T_MAX_MS)
-        m = x.zint("m%d" % i, 0, D_MAX_MS)
+        m = x.ranged("m%d" % i, 0, D_MAX_MS)
         l = x.zint("l%d" % i, 0, ntags - 1)
         T.append(k * 1000)
         D.append(m * 1000)
@@ -80,6 +81,7 @@ def harnesses(tier):
         spec = [(1, False, 60), (2, False, 60), (3, False, 300), (4, True, 300)]
     else:
         spec = [(1, False, 60), (2, False, 60), (3, False, 300), (4, False, 1800), (4, True, 600), (5, True, 1800), (6, True, 3600)]
+    hs.append((Harness(PROP, "flood-n2-float-semantics", C.with_floats(h_flood), dict(n=2, ordered=False), "flood on 2 events with IEEE double semantics for any float arithmetic, durations whole ms < 2^17 in binary range pieces", split_depth=7, fresh_solver=True), 600))
     for n, ordered, budget in spec:
         hs.append((Harness(PROP, "flood-n%d-%s" % (n, "sorted" if ordered else "anyorder"), h_flood, dict(n=n, ordered=ordered),
                            "flood on %d non-overlapping events given %s" % (n, "in chronological order" if ordered else "in any order"), split_depth=7, cross_solver=2), budget))
